@@ -1012,11 +1012,27 @@ enum BlockingMode {
     Timeout(Duration),
 }
 
-#[allow(clippy::uninit_vec, clippy::type_complexity)]
+#[allow(clippy::type_complexity)]
 fn recv(
     fd: c_int,
     blocking_mode: BlockingMode,
 ) -> Result<(Vec<u8>, Vec<OsOpaqueIpcChannel>, Vec<OsIpcSharedMemory>), UnixError> {
+    loop {
+        // `None` means the sender of a fragmented message went away (crashed)
+        // before transmitting all of it: that message was never sent as far as
+        // the receiver is concerned, and it says nothing about the other senders
+        // of this channel -- so just carry on with the next message.
+        if let Some(message) = recv_message(fd, blocking_mode)? {
+            return Ok(message);
+        }
+    }
+}
+
+#[allow(clippy::uninit_vec, clippy::type_complexity)]
+fn recv_message(
+    fd: c_int,
+    blocking_mode: BlockingMode,
+) -> Result<Option<(Vec<u8>, Vec<OsOpaqueIpcChannel>, Vec<OsIpcSharedMemory>)>, UnixError> {
     let (mut channels, mut shared_memory_regions) = (Vec::new(), Vec::new());
 
     // First fragments begins with a header recording the total data length.
@@ -1064,7 +1080,7 @@ fn recv(
 
     if total_size == main_data_buffer.len() {
         // Fast path: no fragments.
-        return Ok((main_data_buffer, channels, shared_memory_regions));
+        return Ok(Some((main_data_buffer, channels, shared_memory_regions)));
     }
 
     // Reassemble fragments.
@@ -1106,12 +1122,14 @@ fn recv(
 
         match result.cmp(&0) {
             cmp::Ordering::Greater => continue,
-            cmp::Ordering::Equal => return Err(UnixError::ChannelClosed),
+            // All senders of the dedicated channel are gone, yet data is still owed:
+            // the message was abandoned midway. Discard what we got of it.
+            cmp::Ordering::Equal => return Ok(None),
             cmp::Ordering::Less => return Err(UnixError::last()),
         }
     }
 
-    Ok((main_data_buffer, channels, shared_memory_regions))
+    Ok(Some((main_data_buffer, channels, shared_memory_regions)))
 }
 
 // https://github.com/servo/ipc-channel/issues/192
